@@ -92,10 +92,11 @@ Section Frame.
     pose proof (framed_of_P pknown psem arrsem unpacksem fmtsem asm fuel sf f
                   (P_all pknown psem arrsem unpacksem fmtsem asm HA fuel) HA Tf Of s ltac:(lia) ltac:(lia)) as Fr.
     rewrite Hx in Fr. destruct Fr as (j & uj & E1 & E2 & Hh).
-    cbn [Exec.exec]. rewrite try_sig2. cbn [fst snd]. unfold sig2. cbn [sa so].
+    cbn [Exec.exec try_loop map fst snd]. unfold clean_of. rewrite try_sig2. cbn [fst snd]. unfold sig2. cbn [sa so].
     fold mo. fold targs.
     unfold need. replace (targs <=? length (stk s)) with true by (symmetry; apply Nat.leb_le; lia).
-    cbn [negb]. rewrite Hx.
+    replace (Nat.min targs (sa sf) <=? length (stk s)) with true by (symmetry; apply Nat.leb_le; lia).
+    cbn [negb andb]. rewrite Hx. cbn [andb].
     rewrite E1, keep_bottom_frame by lia.
     rewrite U1 in *. rewrite E2, (keep_bottom_frame uj (und s) 0) by lia. cbn [skipn].
     unfold set_su. cbn [stk und fills fbs depth].
@@ -116,6 +117,89 @@ Section Frame.
     unfold hid in Hh. inversion Hh as [[H1 H2 H3]]. rewrite H1, H2, H3. reflexivity.
   Qed.
 
+  (** * try with any number of handlers: EVERY handler starts from the original arguments *)
+  Lemma insert_at_len (a r : list sval) x : insert_at (length a) x (a ++ r) = a ++ x :: r.
+  Proof. unfold insert_at. rewrite firstn_app, firstn_all, Nat.sub_diag, skipn_app, skipn_all, Nat.sub_diag.
+         cbn [firstn skipn app]. rewrite app_nil_r. reflexivity. Qed.
+  Lemma remove_one_mid (a r : list sval) x : remove_n 1 (length a + 1) (a ++ x :: r) = a ++ r.
+  Proof. unfold remove_n. replace (length a + 1 - 1) with (length a) by lia.
+         rewrite firstn_app, firstn_all, Nat.sub_diag. cbn [firstn]. rewrite app_nil_r.
+         rewrite skipn_app, skipn_all2 by lia. replace (length a + 1 - length a) with 1 by lia. reflexivity. Qed.
+
+  (** the loop of algorithm::try_ at any position: [s] holds the try's arguments [T] on top (and
+      beneath them the error value [e] iff the current function [f] is a handler that was given
+      it); if [f] fails at any point, the NEXT function starts from exactly [T] again (with the new
+      error value beneath iff it asks for it), the same values [R] beneath, the same hidden context
+      stack, fill stack, fill boundaries and call depth: no trace of the failed attempt, for every
+      handler, not only the first *)
+  Theorem try_handler_sees_original : asm_ok ->
+    forall ts any sf f sh g hs (te : bool) fuel s (T : list sval) (e : sval) (R : list sval) c s',
+    tree_ok f -> stored_ok sf f -> sua sf = 0 -> suo sf = 0 ->
+    length T = sa ts -> sa sf <= sa ts + (if te then 1 else 0) ->
+    stk s = T ++ (if te then [e] else []) ++ R ->
+    exec fuel f s = Err c s' -> c = false ->
+    try_loop (exec fuel) ts any sf f ((sh, g) :: hs) te s =
+    try_loop (exec fuel) ts any sh g hs (any && Nat.eqb (sa sh + (so ts - so sh)) (sa ts + 1))
+      (RT (T ++ (if any && Nat.eqb (sa sh + (so ts - so sh)) (sa ts + 1) then [errval] else []) ++ R)
+          (und s) (fills s) (fbs s) (depth s)).
+  Proof.
+    intros HA ts any sf f sh g hs te fuel s T e R c s' Tf Of U1 U2 LT Hfa Es Hx Hc. subst c.
+    set (targs := sa ts) in *. set (takes := any && _).
+    set (E := if te then [e] else []) in *.
+    assert (LE : length E = if te then 1 else 0) by (unfold E; destruct te; reflexivity).
+    assert (Ls : length (stk s) = targs + length E + length R) by (rewrite Es, !app_length; lia).
+    pose proof (framed_of_P pknown psem arrsem unpacksem fmtsem asm fuel sf f
+                  (P_all pknown psem arrsem unpacksem fmtsem asm HA fuel) HA Tf Of s ltac:(lia) ltac:(lia)) as Fr.
+    rewrite Hx in Fr. destruct Fr as (j & uj & E1 & E2 & Hh).
+    cbn [try_loop]. fold targs. unfold clean_of, need.
+    set (nb := Nat.min targs (sa sf)).
+    replace (nb <=? length (stk s)) with true by (symmetry; apply Nat.leb_le; unfold nb; lia).
+    cbn [negb]. rewrite Hx.
+    rewrite E1, keep_bottom_frame by lia.
+    rewrite U1 in *. rewrite E2, (keep_bottom_frame uj (und s) 0) by lia. cbn [skipn].
+    unfold set_su. cbn [stk und fills fbs depth].
+    (* the stack once the stale error value is gone: the try arguments f did not take, then R *)
+    assert (HB : (te && (sa sf <=? targs) && negb (targs - sa sf + 1 <=? length (skipn (sa sf) (stk s))) = false) /\
+                 (if te && (sa sf <=? targs)
+                  then remove_n 1 (targs - sa sf + 1) (skipn (sa sf) (stk s))
+                  else skipn (sa sf) (stk s)) = skipn nb T ++ R).
+    { rewrite Es. unfold E in *. destruct te; cbn [andb].
+      - destruct (sa sf <=? targs) eqn:El.
+        + apply Nat.leb_le in El. split.
+          * apply negb_false_iff, Nat.leb_le. rewrite skipn_length, !app_length. cbn [length]. lia.
+          * replace nb with (sa sf) by (unfold nb; lia).
+            rewrite skipn_app. replace (sa sf - length T) with 0 by lia. cbn [skipn app].
+            replace (targs - sa sf + 1) with (length (skipn (sa sf) T) + 1) by (rewrite skipn_length; lia).
+            apply remove_one_mid.
+        + apply Nat.leb_gt in El. split; [reflexivity|].
+          replace nb with targs by (unfold nb; lia).
+          rewrite skipn_app, (skipn_all2 T) by lia. replace (sa sf - length T) with 1 by lia.
+          rewrite <- LT, skipn_all. reflexivity.
+      - split; [reflexivity|]. replace nb with (sa sf) by (unfold nb; lia).
+        cbn [app]. rewrite skipn_app. replace (sa sf - length T) with 0 by lia. reflexivity. }
+    destruct HB as [HB1 HB2]. rewrite HB1.
+    set (s2 := {| stk := skipn (sa sf) (stk s); und := und s; fills := fills s'; fbs := fbs s'; depth := depth s' |}).
+    assert (Es2 : stk (if te && (sa sf <=? targs) then set_stk s2 (remove_n 1 (targs - sa sf + 1) (skipn (sa sf) (stk s))) else s2)
+                  = skipn nb T ++ R).
+    { rewrite <- HB2. destruct (te && (sa sf <=? targs)); reflexivity. }
+    assert (Hrest : forall l, set_stk (if te && (sa sf <=? targs) then set_stk s2 (remove_n 1 (targs - sa sf + 1) (skipn (sa sf) (stk s))) else s2) l
+                              = RT l (und s) (fills s) (fbs s) (depth s)).
+    { intros l. unfold hid in Hh. inversion Hh as [[H1 H2 H3]].
+      destruct (te && (sa sf <=? targs)); unfold set_stk, s2; cbn [stk und fills fbs depth]; rewrite H1, H2, H3; reflexivity. }
+    fold takes. rewrite Es2.
+    assert (Ldep : targs - sa sf <= length (skipn nb T ++ R)).
+    { rewrite app_length, skipn_length. unfold nb. lia. }
+    replace (targs - sa sf <=? length (skipn nb T ++ R)) with true by (symmetry; apply Nat.leb_le; exact Ldep).
+    cbn [negb]. rewrite andb_false_r.
+    rewrite Hrest. f_equal. f_equal.
+    assert (Hd : targs - sa sf = length (skipn nb T)) by (rewrite skipn_length; unfold nb; lia).
+    assert (Hbk : firstn nb (stk s) = firstn nb T).
+    { rewrite Es, firstn_app. replace (nb - length T) with 0 by (unfold nb; lia). cbn [firstn]. apply app_nil_r. }
+    rewrite Hbk. destruct takes.
+    - rewrite Hd, insert_at_len. rewrite app_assoc, firstn_skipn. reflexivity.
+    - rewrite app_assoc, firstn_skipn. reflexivity.
+  Qed.
+
   (** when F succeeds, try is F followed by dropping the excess arguments *)
   Theorem try_success : forall sf f sh g fuel s s2, try_targs sf sh <= length (stk s) ->
     exec fuel f s = Ok s2 ->
@@ -126,8 +210,11 @@ Section Frame.
        if negb (Nat.eqb n1 0) && negb (need dep s2) then Err false s2
        else Ok (set_stk s2 (remove_n n1 dep (stk s2)))).
   Proof.
-    intros sf f sh g fuel s s2 Hl Hx. unfold try_targs in *. cbn [Exec.exec].
+    intros sf f sh g fuel s s2 Hl Hx. unfold try_targs in *. cbn [Exec.exec try_loop map fst snd]. unfold clean_of.
     unfold need at 1. replace (sa (fst (try_sig [sf; sh])) <=? length (stk s)) with true
+      by (symmetry; apply Nat.leb_le; lia).
+    unfold need at 1.
+    replace (Nat.min (sa (fst (try_sig [sf; sh]))) (sa sf) <=? length (stk s)) with true
       by (symmetry; apply Nat.leb_le; lia).
     cbn [negb]. rewrite Hx. reflexivity.
   Qed.
